@@ -38,6 +38,7 @@ type Job struct {
 	Solver    string           `json:"solver"`
 	Excludes  map[string][][]Pred `json:"excludes"` // label -> list of known-finding predicates (conjunctions)
 	SMTLog    string           `json:"smt_log"`
+	Seed      uint64           `json:"seed"`
 	Cross     string           `json:"cross"` // second solver for re-deciding discharged assertions (e.g. z3-new)
 }
 
@@ -158,6 +159,7 @@ func runJob(l *Loaded, job Job) (res JobResult) {
 	}
 	ex.maxPaths = job.MaxPaths
 	ex.crossSolver = job.Cross
+	ex.seed = job.Seed
 	ex.exclPreds = job.Excludes
 	fnCount := map[*ssa.Function]int64{}
 	run := func() {
